@@ -52,7 +52,7 @@ def _first_const(e):
 
 
 def _texts_have(e, comp):
-    return has(e.heads(), comp)
+    return e.callee_is(comp)
 
 
 def commands(ctx, F):
